@@ -76,4 +76,19 @@ func SortPrefixesBySize(prefixes map[bitstr.Key][]mh.Multihash) []PrefixAndKeys
   modifies nothing
   ensures [only-entries-of-the-map-with-keys] all(i, 0, len(result), has(prefixes, result[i].Prefix) && result[i].Keys != nil)
   loop over prefixes invariant all(i, 0, len(out), has(prefixes, out[i].Prefix) && out[i].Keys != nil)
+
+# Fallback of AssignKeysToRegions: the region whose measured common prefix
+# length with the key is maximal over ALL regions, whatever their order
+# ($cpl[i] = the length measured for region i, $bi = index of the best so far).
+func closestRegionPrefix(regions []Region, h bit256.Key) bitstr.Key
+  props C18 C17
+  requires len(regions) > 0
+  ghostvar $cpl map[int]int = any
+  ghostvar $bi int = 0
+  modifies nothing
+  ensures [a-region-prefix] 0 <= $bi && $bi < len(regions) && result == regions[$bi].Prefix
+  ensures [no-region-is-nearer] all(i, 0, len(regions), $cpl[i] <= $cpl[$bi])
+  loop over regions invariant bestCpl >= -1 && 0 <= $bi && $bi < len(regions) && best == regions[$bi].Prefix && imp($key > 0, $bi < $key && bestCpl == $cpl[$bi]) && imp($key == 0, bestCpl == -1) && all(i, 0, $key, $cpl[i] <= bestCpl)
+  ghost at before call(CommonPrefixLength): assert($arg0 == regions[$key].Prefix && $arg1 == h)
+  ghost at call(CommonPrefixLength): $cpl[$key] = $ret0; $bi = ite($ret0 > bestCpl, $key, $bi)
 @*/
